@@ -40,7 +40,7 @@ def seekLoop (t : Nat) : Nat → State → State
 /-- mirrors: src/query/bitset/mod.rs::seek -/
 def seek (fx : Fix) (t : Nat) (s : State) : State :=
   if t ≥ s.maxValue then
-    if fx.bitsetSticky then
+    if fx.bitsetSticky || decide (Gen.BITSET_SEEK_PAST_MAX_EXHAUSTS_CURSOR = 1) then
       { s with cursorTiny := [], cursorBucket := (s.maxValue - 1) / 64, doc := TERMINATED }
     else { s with doc := TERMINATED }
   else
